@@ -103,6 +103,25 @@ func buildOps() []hop {
 		_, e7 := otp.ValidateOCRA(hopSec, "1", ss0.lib(), otp.OCRAInput{})
 		return fmt.Sprint(e1 != nil, e2 != nil, e3 != nil, e4 != nil, e5 != nil, e6 != nil, e7 != nil), nil
 	}, fmt.Sprint(true, true, true, true, true, true, true)})
+	// refused OCRA calls whose error TEXT is the observation: two refusals of the same kind with different numbers in
+	// them (what overlapping refusals share - an error template, a formatting buffer - shows as the other call's numbers).
+	// The reference here is the text the very same call returns when it is made alone, before any exploration starts.
+	refusedOCRA := func(name, suite string, in otp.OCRAInput) {
+		call := func() (string, []string) {
+			su, _ := otp.NewRawSuite(suite)
+			_, e1 := otp.GenerateOCRA(hopSec, su, in)
+			_, e2 := otp.ValidateOCRA(hopSec, "123456", su, in)
+			return errStr(e1) + "|" + errStr(e2), nil
+		}
+		alone, _ := call()
+		ops = append(ops, hop{name, call, alone})
+	}
+	refusedOCRA("ocra-refused-short-2-of-8", "OCRA-1:HOTP-SHA1-6:QN08", otp.OCRAInput{Challenge: []byte{1, 2}})
+	refusedOCRA("ocra-refused-short-7-of-10", "OCRA-1:HOTP-SHA1-6:QN10", otp.OCRAInput{Challenge: []byte{1, 2, 3, 4, 5, 6, 7}})
+	refusedOCRA("ocra-refused-long-200", "OCRA-1:HOTP-SHA256-8:QA08", otp.OCRAInput{Challenge: make([]byte, 200)})
+	refusedOCRA("ocra-refused-long-129", "OCRA-1:HOTP-SHA256-8:QA08", otp.OCRAInput{Challenge: make([]byte, 129)})
+	refusedOCRA("ocra-refused-counter-3", "OCRA-1:HOTP-SHA1-6:C-QN08", otp.OCRAInput{Challenge: []byte("12345678"), Counter: []byte{1, 2, 3}})
+	refusedOCRA("ocra-refused-counter-9", "OCRA-1:HOTP-SHA1-6:C-QN08", otp.OCRAInput{Challenge: []byte("12345678"), Counter: make([]byte, 9)})
 	ss, ls := shortShape(), longShape()
 	sin, lin := admissible(ss, 0), admissible(ls, 4)
 	ops = append(ops, hop{"ocra-short", func() (string, []string) {
